@@ -186,7 +186,12 @@ def run(ctx):
     ctx.assumptions = ["two unslicer semantics are compared with the model callback by callback: the policy unslicers of harness/c07_impl.py and the "
                        "standard unslicers (root, list, tuple, dict, set, immutable-set, unicode, boolean, none) under real constraint objects; "
                        "decimal / reference / copyable / vocab unslicers, non-ASCII text and float / bool / frozenset set members are covered by "
-                       "the generic theorems and the direct oracles only (the instance model abstains)",
+                       "the generic theorems and the direct oracles only: there the instance model ABSTAINS -- a third outcome marked by the event "
+                       "UUnmodelled, never an abandonment (props/C07.v C07_abstention_is_not_abandonment; the standard-unslicer theorems are "
+                       "stated three ways and claim nothing about an abstaining run); what the real code does before an unmodelled unslicer "
+                       "exists (opentype check, registry lookup, setConstraint's AssertionError) is modelled and compared on fixed witnesses",
+                       "the generic vocabulary-unchanged theorems hold for unslicer semantics whose callbacks cannot reach the protocol object; "
+                       "the real set-vocab / add-vocab unslicers can (replaceIncomingVocabulary) and are outside every instance model",
                        "the text of ERROR messages is not compared (its length rule and the order of the writes are translated and proved)",
                        "the Coq models take the unslicer semantics (what the registries of opentypes and RemoteCopy names allow) as ONE parameter shared by "
                        "all receivers; that the real root unslicers consult the process-wide registries when the tokens arrive instead of freezing "
